@@ -234,6 +234,7 @@ class TFLiteSupportedOperators:
             self.specific_constraints[op_type].append(TFLiteSupportedOperators.constraint_dilated_product_range)
             self.specific_constraints[op_type].append(TFLiteSupportedOperators.constraint_weights_type)
             self.specific_constraints[op_type].append(TFLiteSupportedOperators.constraint_weights_const)
+            self.specific_constraints[op_type].append(TFLiteSupportedOperators.constraint_weights_symmetric)
             self.specific_constraints[op_type].append(TFLiteSupportedOperators.constraint_weights_limit)
             self.specific_constraints[op_type].append(TFLiteSupportedOperators.constraint_bias_shape)
             self.specific_constraints[op_type].append(TFLiteSupportedOperators.constraint_bias_type)
@@ -493,6 +494,17 @@ class TFLiteSupportedOperators:
         weights = op.weights
         valid = weights.values is not None
         return valid, f"Tensor '{weights.name}' has non-constant values"
+
+    @staticmethod
+    def constraint_weights_symmetric(op):
+        "For int8 and int16 IFM the Weight tensor zero points must all be 0 (--force-symmetric-int-weights sets them to 0)"
+        # Documents what check_asymmetric_weights() in the graph optimiser enforces before this check is reached:
+        # without the option such an operator has already been placed on the CPU, with it the zero points are already 0
+        weights = op.weights
+        valid = True
+        if op.ifm.dtype in (DataType.int8, DataType.int16) and weights.quantization is not None:
+            valid = bool(np.all(weights.quantization.zero_point == 0))
+        return valid, f"Tensor '{weights.name}' has non-zero zero points"
 
     @classmethod
     @docstring_format_args([weights_limit])
